@@ -33,11 +33,14 @@ FLAG_NAMES = ["sequence", "features_inside_extract", "numbering", "motif_and_cor
               "parent_unchanged", "annotations", "file_structured_comment", "parent_annotations_unchanged"]
 NF = len(FLAG_NAMES)
 FN = 2            # write_to_genbank_rec (features + annotations); the specification is FN + 100
-# class of a failed flag whose guard is false (index = flag); the guards of features_inside_extract,
-# motif_and_core_locations_inside and parent_unchanged are constantly true since the repair of
-# wrapped_region_partial_feature / wrapped_region_motif_offset / wrapped_region_parent_qualifiers, and the numbering
-# guard no longer excludes regions whose first sub-region is not number 1 (subregion_refs_not_renumbered repaired)
-CLASS_OF_FLAG = {0: "whole_ring_region", 2: "wrapped_region_numbering"}
+# class of a failed flag whose guard is false (index = flag): none is left.  Every guard is constantly true since the
+# repair of wrapped_region_partial_feature / wrapped_region_motif_offset / wrapped_region_parent_qualifiers /
+# subregion_refs_not_renumbered / whole_ring_region / wrapped_region_numbering, except the numbering guard, which asks
+# for distinct area numbers per type in the parent (always the case in a secmet Record: they are list positions; only
+# synthetic 'chaos' cases break it, and those are not decided).  The two classes still recorded are recognised by the
+# message and the shape of the case in decide(): multi_exon_spans_extract (a refusal of the loader) and
+# whole_ring_cut_in_intron (a gene missing after the reload of a whole-ring region whose cut point lies in its intron)
+CLASS_OF_FLAG = {}
 
 
 # ------------------------------------------------------------------ encoding
@@ -340,7 +343,10 @@ class Synth:
         n = rng.choice([12, 20, 30, 60, 100, 150, 300])
         circular = rng.random() < 0.6
         crossing = circular and rng.random() < 0.6
-        if crossing:
+        if crossing and rng.random() < 0.12:
+            # the whole ring, cut at start (start == end): whole_ring_region, repaired
+            start = end = rng.randint(1, n - 1)
+        elif crossing:
             end = rng.randint(1, n - 2)
             start = rng.randint(end + 1, n - 1)
         else:
@@ -385,7 +391,7 @@ class Synth:
             subs = [base_sub]
             nsubs = 1
 
-        region_parts = self.span_parts(n, start, end % n if end == n and crossing else end, 1) if start != end else [(start, end, 1)]
+        region_parts = self.span_parts(n, start, end % n if end == n and crossing else end, 1)
         quals = {"candidate_cluster_numbers": [str(c) for c in cand_numbers], "subregion_numbers": [str(s) for s in subs],
                  "region_number": [str(rng.randint(1, 4))]}
         if not cand_numbers:
@@ -665,6 +671,13 @@ class RealGen:
                 s, e = cs - ext, ce + ext
                 if s > e + 1:
                     protos.append(((cs, ce), (s, e), "prodx"))
+        if circular and rng.random() < 0.15:
+            # a protocluster whose extent is the whole ring, cut just before its core (whole_ring_region, repaired)
+            j = rng.randrange(len(spans))
+            k = min(len(spans) - 1, j + rng.choice([0, 1, 2]))
+            s = spans[j][0] - rng.choice([0, 5, 20])
+            if s > 0:
+                protos.append(((spans[j][0], spans[k][1]), (s, s), "prodw"))
         for _ in range(rng.choice([0, 0, 1, 1, 2])):
             j = rng.randrange(len(spans))
             k = min(len(spans) - 1, j + rng.choice([0, 1]))
@@ -890,7 +903,7 @@ def _g(s, e, strand=1):
 
 # regression corpus, run first in the real stream (n, circular, genes, protoclusters (core, extent, product), sub-regions,
 # prepeptides): the witnesses of the repaired findings (nothing is suppressed for them: a failure is a VIOLATION) and of
-# the findings that are still recorded
+# the finding that is still recorded (F50, a refusal of the loader)
 CORPUS = [
     # F18 region_type_compare (fixed): three regions with candidate clusters on a linear record
     (1000, False, [_g(12, 42), _g(216, 246), _g(600, 630)],
@@ -908,9 +921,16 @@ CORPUS = [
      [((950, 20), (900, 120), "a"), ((420, 460), (400, 500), "d")], [], {}),
     # F50 multi_exon_spans_extract (known)
     (600, False, [_g(24, 42), _g(254, 332), [(373, 406, -1), (337, 364, -1)], _g(406, 427)], [((337, 406), (337, 406), "a")], [], {}),
-    # F51 whole_ring_region (known)
+    # F51 whole_ring_region (fixed): the whole ring from an offset, start == end
     (600, True, [_g(6, 57), _g(106, 136), _g(196, 256), _g(399, 462)], [((196, 462), (196, 196), "a")], [], {}),
-    # F19 wrapped_region_numbering (known; DESIGN finding 19)
+    # F51 + F19: a whole-ring region holding protoclusters before, across and after the origin
+    (600, True, [_g(6, 57), _g(106, 136), _g(196, 256), _g(399, 462), _g(540, 570)],
+     [((196, 256), (150, 150), "a"), ((540, 57), (520, 80), "b"), ((106, 136), (100, 140), "c"), ((399, 462), (380, 470), "d")],
+     [(190, 260), (90, 140)], {}),
+    # FC12a whole_ring_cut_in_intron (known): the cut point 262 of the whole-ring region lies in the intron of gene 2
+    (600, True, [_g(5, 56), [(236, 254, 1), (269, 281, 1)], _g(282, 306, -1), _g(306, 396, -1)],
+     [((282, 396), (262, 262), "a")], [], {}),
+    # F19 wrapped_region_numbering (fixed; DESIGN finding 19): protoclusters 1, 2, 4 of 4 in the origin-crossing region
     (1000, True, [_g(960, 990), _g(60, 90), _g(860, 890), _g(420, 450)],
      [((950, 20), (900, 50), "a"), ((60, 100), (30, 120), "b"), ((860, 900), (850, 920), "c"),
       ((420, 460), (400, 500), "d")], [], {}),
@@ -923,12 +943,12 @@ def known_classes():
 # ------------------------------------------------------------------ the run
 
 RULE = ("synthetic stream: bio-level records of 12-300 bases, linear/circular, a region inside / touching the record ends / "
-        "crossing the origin, 0-3 candidate clusters (contiguous, gapped or shuffled numbers, shared protoclusters), 0-2 "
+        "crossing the origin / covering the whole ring from an offset (start == end), 0-3 candidate clusters (contiguous, gapped or shuffled numbers, shared protoclusters), 0-2 "
         "sub-regions, genes and CDS_motifs (1-3 exons, both strands, adjacent exons, crossing the origin, inside / on the "
         "edge of / partly outside the region), 15% 'chaos' cases with area features the public API would not build (unknown "
         "protocluster numbers -> KeyError); real stream: secmet Records of 600-3000 bases with up to 16 genes (two-exon and "
         "origin-crossing genes, prepeptides with leader/tail), 1-6 protoclusters (overlapping, origin-crossing extents and "
-        "cores) and 0-2 sub-regions, create_candidate_clusters + create_regions, every region written with the shared bio "
+        "cores, 15% of the circular records with a whole-ring extent cut before the core) and 0-2 sub-regions, create_candidate_clusters + create_regions, every region written with the shared bio "
         "record, parsed, reloaded; parent annotations (both streams): with / without structured_comment, empty one, "
         "structured comments without antiSMASH-Data, empty antiSMASH-Data, Version / Run date / Original ID, the --start/--end "
         "NOTE with Starting at / Ending at, NOTE / Orig. start / Orig. end of an earlier region file in any order, other "
@@ -975,6 +995,8 @@ def decide(chk, idx, flat, out, verdict, consistent, reload_msg, known, describe
             cls = CLASS_OF_FLAG.get(bad_guards[0])
         if cls is None and describe.get("spanning_multi_exon") and "origin spanning exon while in a linear record" in reload_msg:
             cls = "multi_exon_spans_extract"
+        if cls is None and describe.get("cut_in_intron") and reload_msg.startswith("cds differ after reload"):
+            cls = "whole_ring_cut_in_intron"
         chk.count("reload_fail" + ("" if cls is None else f"[{cls}]"))
         if cls is not None and cls in known:
             chk.known(known[cls]["what_fails"])
@@ -1004,7 +1026,7 @@ def run(chk):
         flat, out = run_synth(case)
         cases.append(flat)
         impl_outs.append(out)
-        crossing = case["end"] < case["start"]
+        crossing = case["end"] <= case["start"]
         # the decision rule is applied to the real stream only (synthetic numbering gaps etc. are not reachable
         # through the public API); synthetic outputs are histogrammed
         meta.append({"consistent": False, "reload": None,
@@ -1018,6 +1040,8 @@ def run(chk):
                                          "with_antiSMASH-Data" if "antiSMASH-Data" in comment else
                                          "with_structured_comment_only"))
         chk.count("synthetic_crossing" if crossing else "synthetic_linear_region")
+        if case["end"] == case["start"]:
+            chk.count("synthetic_whole_ring")
         if out[0] == 1:
             chk.count("error_" + common.ERR_NAME.get(out[1], str(out[1])))
         kept = out[1 + 1 + case_len(out)] if out[0] == 0 else 0
@@ -1084,6 +1108,15 @@ def run(chk):
                         len(f.location.parts) > 1 and int(f.location.start) - int(region.start) == 0
                         and int(f.location.end) - int(region.start) == length for f in bio.features
                         if int(region.start) <= int(f.location.start) and int(f.location.end) <= int(region.end))
+                if int(region.start) == int(region.end):
+                    # a spliced gene of the region with exons on both sides of the cut point of a whole-ring region
+                    cut = int(region.start)
+                    desc["cut_in_intron"] = any(
+                        len(c.location.parts) > 1 and not c.location.crosses_origin()
+                        and geometrically_inside(c.location, region.location)
+                        and any(int(p.end) <= cut for p in c.location.parts)
+                        and any(int(p.start) >= cut for p in c.location.parts)
+                        for c in record.get_cds_features())
                 if reload_msg and circular and len(region.location) == n and not crossing and any(
                         area.location.crosses_origin() for area in list(record.get_protoclusters())
                         + list(record.get_candidate_clusters()) + list(record.get_subregions())):
@@ -1095,6 +1128,10 @@ def run(chk):
                 meta.append({"consistent": True, "reload": reload_msg, "describe": desc})
                 chk.count("real_regions")
                 chk.count("real_region_crossing" if crossing else "real_region_linear")
+                if int(region.start) == int(region.end):
+                    chk.count("real_region_whole_ring")
+                if crossing and len(region.get_unique_protoclusters()) + len(region.subregions) >= 2:
+                    chk.count("real_region_crossing_with_several_areas")
                 if region.get_region_number() > 1:
                     chk.count("real_region_not_first")
                 if out[0] == 1:
